@@ -664,6 +664,9 @@ class Sim:
                 kw["vertices"] = [fn(rng) if cls == "Tetrahedron" else fn(rng)[:3] for _ in range(nvec)]
                 if cls == "Tetrahedron":  # its polarization is registered with ndim 1: give one per instance
                     kw["polarization"] = [kw["polarization"]] * nvec
+            alias_name = {"Circle": "Loop", "Polyline": "Line"}.get(cls)
+            if alias_name and rng.random() < 0.3:
+                cls = alias_name  # deprecated names that are still registered
             op.update({"dict_cls": cls if rng.random() > 0.03 else "Bogus", "dict_kw": kw,
                        "dict_as_array": rng.random() < 0.7,
                        "observers": [{"arr": gen.path(rng, nvec if rng.random() < 0.8 else 2)}],
